@@ -33,7 +33,7 @@ GOENV = dict(os.environ, GOFLAGS="-mod=mod", GOPROXY="off", GOSUMDB="off", GOTOO
              CGO_ENABLED=os.environ.get("CGO_ENABLED", "1"))
 
 sys.path.insert(0, os.path.join(ROOT, "py"))
-from props import PROPS, COMPONENT_TRANSLATORS  # noqa: E402
+from props import PROPS, all_components  # noqa: E402
 
 ALLOWED_AXIOMS = set()  # no axiom is used by any theorem; anything reported by Print Assumptions is an alarm
 
@@ -120,8 +120,46 @@ def regenerate_gen():
     return res
 
 
+def write_if_changed(path, txt):
+    if not os.path.exists(path) or open(path).read() != txt:
+        open(path, "w").write(txt)
+        return True
+    return False
+
+
+def generate_glue():
+    """_CoqProject from the tree; Extract.v and ocaml/dispatch.ml from the component registry (py/props)."""
+    vs = []
+    for d in ("Base", "Gen", "Model", "Proofs", "Props"):
+        for f in sorted(glob.glob(os.path.join(COQ, d, "*.v"))):
+            if "Tmp_goal_" in f:
+                continue
+            vs.append(os.path.relpath(f, COQ))
+    write_if_changed(os.path.join(COQ, "_CoqProject"), "-Q . Oxy\n" + "\n".join(vs) + "\n")
+    comps = all_components()
+    mods = sorted({c.rsplit(".", 1)[0] for c in comps.values()})
+    ex = ["(* GENERATED by py/vcheck.py from the component registry (py/props/*.py). Do not edit.",
+          "   Extraction of the executable models for the correspondence check.",
+          "   Only ExtrOcamlBasic is used (bool/option/list/prod/unit/sumbool -> OCaml's own);",
+          "   numbers stay Coq's positive/Z/N/Q. No Extract Constant, no further Extract Inductive. *)",
+          "From Oxy Require Import Base.Prelude."]
+    ex += ["From Oxy Require %s." % m for m in mods]
+    ex += ["Require Extraction.", "Require Import ExtrOcamlBasic.", "Set Warnings \"-extraction-opaque-accessed,-extraction-reserved-identifier\"."]
+    for name, c in sorted(comps.items()):
+        ex.append("Definition %s_run : list Z -> list (list Z) -> list (list Z) := %s." % (name, c))
+    ex.append("Extraction \"model.ml\" %s." % " ".join("%s_run" % n for n in sorted(comps)))
+    write_if_changed(os.path.join(COQ, "Extract", "Extract.v"), "\n".join(ex) + "\n")
+    dm = ["(* GENERATED by py/vcheck.py. Do not edit. *)", "open Model",
+          "let runner (name : string) : z list -> z list list -> z list list =", "  match name with"]
+    for name in sorted(comps):
+        dm.append('  | "%s" -> %s_run' % (name, name))
+    dm.append('  | _ -> failwith ("unknown component " ^ name)')
+    write_if_changed(os.path.join(ROOT, "ocaml", "dispatch.ml"), "\n".join(dm) + "\n")
+
+
 def coq_make(targets=None):
     """Incremental full-.vo build of the Coq development (never -vos)."""
+    generate_glue()
     if not os.path.exists(os.path.join(COQ, "Makefile")) or \
             os.path.getmtime(os.path.join(COQ, "Makefile")) < os.path.getmtime(os.path.join(COQ, "_CoqProject")):
         sh(["coq_makefile", "-f", "_CoqProject", "-o", "Makefile"], cwd=COQ, check=True)
@@ -136,7 +174,7 @@ def build_extraction():
     replay = os.path.join(oc, "replay")
     srcs = glob.glob(os.path.join(COQ, "Model", "*.vo")) + glob.glob(os.path.join(COQ, "Gen", "*.vo")) + \
         glob.glob(os.path.join(COQ, "Base", "*.vo")) + \
-        [os.path.join(COQ, "Extract", "Extract.v"), os.path.join(oc, "replay.ml")]
+        [os.path.join(COQ, "Extract", "Extract.v"), os.path.join(oc, "replay.ml"), os.path.join(oc, "dispatch.ml")]
     stamp = os.path.join(BUILD, "extract.stamp")
     h = file_hash(srcs)
     if os.path.exists(replay) and os.path.exists(stamp) and open(stamp).read() == h:
@@ -144,7 +182,7 @@ def build_extraction():
     rc, o = sh(["coqc", "-Q", COQ, "Oxy", os.path.join(COQ, "Extract", "Extract.v")], cwd=oc, timeout=900)
     if rc != 0:
         return False, "extraction failed:\n" + o[-3000:]
-    rc, o = sh("ocamlfind ocamlopt -w -a -package str model.mli model.ml replay.ml -o replay", cwd=oc, timeout=900)
+    rc, o = sh("ocamlfind ocamlopt -w -a -package str model.mli model.ml dispatch.ml replay.ml -o replay", cwd=oc, timeout=900)
     if rc != 0:
         return False, "building ocaml/replay failed:\n" + o[-3000:]
     open(stamp, "w").write(h)
@@ -202,16 +240,34 @@ def theorem_names(vfile):
 
 def check_props(pid, spec):
     """Compile Props/<ID>.v from scratch and audit Print Assumptions. Returns dict."""
-    vfile = os.path.join(COQ, "Props", pid + ".v")
+    files = [os.path.join(COQ, "Props", f) for f in spec.get("props_files", [pid + ".v"])]
+    res = None
+    for vfile in files:
+        r = check_props_file(pid, vfile)
+        if res is None:
+            res = r
+        else:
+            for k in ("obligations", "discharged"):
+                res[k] += r[k]
+            for k in ("theorems", "broken"):
+                res[k] += r[k]
+            res["axioms"].update(r["axioms"])
+            res["output_tail"] += r["output_tail"]
+            res["checker_cmd"] += " ; " + r["checker_cmd"]
+    return res
+
+
+def check_props_file(pid, vfile):
     names = theorem_names(vfile)
+    base = os.path.splitext(os.path.basename(vfile))[0]
     res = {"file": vfile, "obligations": len(names), "discharged": 0, "theorems": names, "broken": [],
            "axioms": {}, "output_tail": ""}
     # dependencies first
-    rc, o = coq_make(["Props/%s.vo" % pid])
+    rc, o = coq_make(["Props/%s.vo" % base])
     t0 = time.time()
     rc2, out = sh(["coqc", "-Q", COQ, "Oxy", vfile], cwd=COQ, timeout=1500)
     res["coqc_s"] = round(time.time() - t0, 2)
-    res["checker_cmd"] = "make -C coq Props/%s.vo && coqc -Q coq Oxy coq/Props/%s.v  (Coq 8.16.1 kernel; full .vo build)" % (pid, pid)
+    res["checker_cmd"] = "make -C coq Props/%s.vo && coqc -Q coq Oxy coq/Props/%s.v  (Coq 8.16.1 kernel; full .vo build)" % (base, base)
     if rc != 0 or rc2 != 0:
         res["output_tail"] = (o[-3000:] if rc != 0 else "") + out[-3000:]
         # which theorem is broken: the first one at or after the error line, or the dependency file
